@@ -225,6 +225,10 @@ func (r *Reader) ReadWord(p []byte) error {
 	case r.literal > 0:
 		r.literal--
 		_, err := io.ReadFull(r.rd, p)
+		if err == io.EOF {
+			// The run announced more words: the stream is truncated.
+			err = io.ErrUnexpectedEOF
+		}
 		return err
 	}
 
